@@ -34,6 +34,16 @@ def run(prog, R, tier="quick", only_rule=None):
     c03d(prog, R)
     c03e(prog, R)
     c03f(prog, R)
+    # the scan pins one SuperVersion, also for the blob side (necessary for "for every snapshot")
+    c02.c02d(prog, R, rid="C03.g")
+    # RunReader and Run::range_overlap_indexes rely on runs being sorted and disjoint, and on table key ranges being right
+    from rules.props import c07
+    c07.c07a(prog, R, rid="C03.h")
+    c07.c07c(prog, R, rid="C03.i")
+    # every entry a table scan yields, from either end and on every drain path, carries its translated seqno: the merge
+    # orders versions of a key by it
+    from rules.props import c14
+    c14.c14c(prog, R, rid="C03.j")
 
 
 def norm_bound(p):
